@@ -205,6 +205,16 @@ impl Monitor {
                     "frame-exceeds-device-mtu",
                     format!("frame of {} octets handed to a device whose max_transmission_unit is {}", frame.len(), ctx.mtu),
                 );
+            } else if ctx.medium == Medium::Ieee802154 && frame.len() > 125 {
+                // an IEEE 802.15.4 PHY carries 127 octets including the 2-octet FCS, which the
+                // device appends itself (smoltcp hands frames over without FCS and sizes them for
+                // 125): a device that reports 127 still cannot send more than 125 of them
+                out.add(
+                    "mtu",
+                    "ieee802154",
+                    "frame-exceeds-125-octets",
+                    format!("frame of {} octets (without FCS) handed to an IEEE 802.15.4 device (reported max_transmission_unit {}): the PHY carries 127 octets including the 2-octet FCS", frame.len(), ctx.mtu),
+                );
             }
             match ctx.medium {
                 Medium::Ethernet => self.ethernet(frame, ctx, &mut out, &mut v),
